@@ -70,7 +70,7 @@ def _selector(l: Event) -> Optional[bool]:
     return None
 
 
-@rule("C06.R2", "all markets are stepped together: ordinary markets first, index markets after them, each asked for time+1", "T5 ordering + T7", floor=4)
+@rule("C06.R2", "all markets are stepped together: ordinary markets first, index markets after them, each asked for time+1", "T5 ordering + T7", floor=3)
 def r2(ctx: Ctx) -> None:
     f = ctx.func(UTS)
     for p in normal_paths(ctx.paths(UTS)):
